@@ -512,6 +512,7 @@ class Check:
                             "(Print Assumptions allow-list, statement pins coq/pins.json, forbidden-word scan)",
                 trusted_base=TRUSTED_BASE, theorems=pr["theorems"], axioms=pr["axioms"],
                 proof_problems=pr["problems"],
+                coqchk=pr.get("coqchk", "not run (thorough tier only)"), coqchk_axioms=pr.get("coqchk_axioms", []),
                 evaluations=self.evaluations, distinct_nontrivial=len(self.nontrivial_hashes),
                 distinct=len(self.hashes), rule=self.rule,
                 traces_validated_against_impl=self.validated,
